@@ -29,13 +29,23 @@
  *   END                  tear down (client close, evhttp_free, event_base_free)
  * Trace (stdout): CASE, SESSION 0|1, SEG, MSG <type> <len> X <hex>|H <sha256>,
  *   CLOSECB, RX ..., PEERCLOSED, PEERRESET, WERR <unsent>, NOSESSION <op>,
- *   STALL <why>, EOFMARK, TEARDOWN, ENDCASE.
+ *   STALL <why>, EOFMARK, TEARDOWN, ENDCASE, RESTART <ordinal>.
+ *
+ * The script runs in a forked child; when the child dies inside a case
+ * (sanitizer report, assertion, crash, watchdog) the parent starts a new child
+ * behind that case, so one report does not hide the rest of the file
+ * (H_WS_NOFORK=1 disables this for debugging).  --n1 <sec> = per-case real-time
+ * watchdog (default 180 s; firing = STALL = inconclusive, never a violation).
+ * "Idle" is decided from observed facts: bytes sent == bytes the server read
+ * (sysfault observer on the accepted fd), bytes the server wrote == bytes the
+ * client read, and two loop steps without a library syscall or callback.
  */
 #include "vh.h"
 #include <errno.h>
 #include <fcntl.h>
 #include <poll.h>
 #include <unistd.h>
+#include <signal.h>
 #include <sys/mman.h>
 #include <sys/wait.h>
 #include <sys/socket.h>
@@ -50,6 +60,7 @@
 #include <event2/bufferevent.h>
 
 ssize_t __real_read(int, void *, size_t);
+ssize_t __real_write(int, const void *, size_t);
 ssize_t __real_send(int, const void *, size_t, int);
 int __real_socket(int, int, int);
 int __real_connect(int, const struct sockaddr *, socklen_t);
@@ -299,6 +310,18 @@ static void client_send(size_t n)
 	stream_pos += n;
 }
 
+/* generous real-time watchdog per case: a hang is reported as STALL (inconclusive),
+ * the supervising parent resumes behind the case */
+static void on_alarm(int sig)
+{
+	static const char m[] = "STALL watchdog\n";
+	ssize_t w;
+	(void)sig;
+	w = __real_write(1, m, sizeof(m) - 1);
+	(void)w;
+	_exit(9);
+}
+
 static void case_begin(long id)
 {
 	struct evhttp_bound_socket *bs;
@@ -325,6 +348,7 @@ static void case_begin(long id)
 	fcntl(cfd, F_SETFL, fcntl(cfd, F_GETFL) | O_NONBLOCK);
 	setsockopt(cfd, IPPROTO_TCP, TCP_NODELAY, &one, sizeof(one));
 	in_case = 1;
+	alarm((unsigned)(vh_opt.n1 > 0 ? vh_opt.n1 : 180));
 	vh_stat("cases_started");
 	printf("CASE %ld\n", id);
 }
@@ -340,6 +364,7 @@ static void case_end(void)
 	event_base_free(base);
 	http = NULL; base = NULL; evws = NULL;
 	in_case = 0;
+	alarm(0);
 	printf("ENDCASE\n");
 }
 
@@ -365,6 +390,7 @@ static int run_script(long skip)
 	sf_observer = obs;
 	sf_fd_filter = fd_filter;
 	event_set_log_callback(lib_log);
+	signal(SIGALRM, on_alarm);
 	vclk_enable(1000000);
 	while ((n = getline(&line, &cap, f)) > 0) {
 		char *s = line;
@@ -449,7 +475,7 @@ static int run_script(long skip)
 int main(int argc, char **argv)
 {
 	long skip = 0;
-	int attempt;
+	int attempt, hangs = 0;
 	vh_init(argc, argv);
 	if (!vh_opt.arg) die("need --arg scriptfile");
 	shared = mmap(NULL, 4096, PROT_READ | PROT_WRITE, MAP_SHARED | MAP_ANONYMOUS, -1, 0);
@@ -465,6 +491,7 @@ int main(int argc, char **argv)
 		if (pid == 0) return run_script(skip);
 		while (waitpid(pid, &st, 0) < 0 && errno == EINTR) ;
 		if (shared[1]) return WIFEXITED(st) ? WEXITSTATUS(st) : 4;
+		if (WIFEXITED(st) && WEXITSTATUS(st) == 9 && ++hangs >= 3) { fprintf(stderr, "h_ws: watchdog fired %d times, giving up\n", hangs); return 7; }
 		if (shared[0] < skip) { fprintf(stderr, "h_ws: child died outside a case (status %d)\n", st); return 5; }
 		printf("RESTART %ld\n", (long)shared[0]);
 		skip = shared[0] + 1;
